@@ -175,7 +175,12 @@ def m_file_open(c):
 def m_file_create(c):
     k = path_key(c.st, c.args[0])
     d = fs(c.st)
-    d[k] = FileObj()
+    if k in d:
+        # O_TRUNC on the same inode: handles opened earlier still refer to it
+        d[k].data = []
+        d[k].synced = 0
+    else:
+        d[k] = FileObj()
     return ok(FileH(d[k], 0, False, k))
 
 
